@@ -15,6 +15,7 @@
  */
 #include "hcommon.h"
 #include <unistd.h>
+#include <sys/stat.h>
 #include "esl_alphabet.h"
 #include "esl_buffer.h"
 #include "esl_msa.h"
@@ -176,6 +177,7 @@ static void note_exception(void)
 static unsigned char *g_exact;   /* exact-size copy of the input for src=mem */
 static FILE *g_stream;      /* FILE* behind a stream-mode buffer (closed by us after esl_msafile_Close) */
 static char  g_path[64];
+static char  g_dir[64];      /* src=named with a '/' in the tail: the directory made for it */
 
 static ESL_MSAFILE_FMTDATA *g_ofd;     /* parse nw=: format data handed to esl_msafile_Open* (NULL = none) */
 
@@ -194,7 +196,22 @@ static int open_source(ESL_ALPHABET **byp, const unsigned char *b, int64_t n, in
     fp = fopen(g_path, "wb"); if (!fp) { perror("fopen"); exit(3); }
     if (n > 0 && fwrite(b, 1, (size_t) n, fp) != (size_t) n) { perror("fwrite"); exit(3); }
     fclose(fp);
-    if (!strcmp(src, "stream")) {
+    if (!strcmp(src, "named")) {
+      /* src=named tail=<hex>: a file called h_msafile_<pid><tail> opened with esl_buffer_OpenFile() + esl_msafile_OpenBuffer(): the way to
+       * give the open path a name that ends in ".gz" (esl_buffer_Open() would pipe it through gzip); no '/' in <tail> */
+      ESL_BUFFER *bf = NULL; int64_t tn = 0; unsigned char *tail = h_unhex(h_arg("tail") ? h_arg("tail") : "-", &tn);
+      unlink(g_path);
+      snprintf(g_path, sizeof(g_path), "h_msafile_%d%.*s", (int) getpid(), (int) tn, tail ? (const char *) tail : "");
+      free(tail);
+      g_dir[0] = 0;
+      if (strchr(g_path, '/')) { snprintf(g_dir, sizeof(g_dir), "%s", g_path); *strchr(g_dir, '/') = 0; mkdir(g_dir, 0700); }   /* one directory level */
+      fp = fopen(g_path, "wb"); if (!fp) { perror("fopen"); exit(3); }
+      if (n > 0 && fwrite(b, 1, (size_t) n, fp) != (size_t) n) { perror("fwrite"); exit(3); }
+      fclose(fp);
+      status = esl_buffer_OpenFile(g_path, &bf);
+      if (status != eslOK) { if (bf) esl_buffer_Close(bf); *ret_afp = NULL; esl_verif_buffer_pagesize = 0; return status; }
+      status = esl_msafile_OpenBuffer(byp, bf, fmt, g_ofd, ret_afp);
+    } else if (!strcmp(src, "stream")) {
       ESL_BUFFER *bf = NULL;
       g_stream = fopen(g_path, "rb");
       status = esl_buffer_OpenStream(g_stream, &bf);
@@ -216,6 +233,7 @@ static void close_source(ESL_MSAFILE *afp)
   if (afp) esl_msafile_Close(afp);
   if (g_stream) { fclose(g_stream); g_stream = NULL; }
   if (g_path[0]) { unlink(g_path); g_path[0] = 0; }
+  if (g_dir[0])  { rmdir(g_dir);   g_dir[0]  = 0; }
   free(g_exact); g_exact = NULL;
 }
 
